@@ -65,6 +65,9 @@ M = [
  ('c07-sync-dir-skips-remove', 'C07', FS,
   "                PendingOp::RemoveFile { path: p } => p.parent() == Some(path),\n                PendingOp::RemoveDir { path: p } => p.parent() == Some(path),\n                // Renames",
   "                PendingOp::RemoveFile { .. } => false,\n                PendingOp::RemoveDir { path: p } => p.parent() == Some(path),\n                // Renames"),
+ ('c07-rename-flush-one-sided', 'C07', FS,
+  "                    dir_modified = true;\n                    self.synced_entries.swap_remove(from);\n                    self.synced_entries.insert(to.clone());",
+  "                    if from.parent() == Some(path) {\n                        dir_modified = true;\n                        self.synced_entries.swap_remove(from);\n                    }\n                    if to.parent() == Some(path) {\n                        dir_modified = true;\n                        self.synced_entries.insert(to.clone());\n                    }"),
  ('c07-torn-write-ignores-offset', 'C07', FS,
   "                let end = offset as usize + data.len();\n                if end > file_data.content.len() {\n                    file_data.content.resize(end, 0);\n                }\n                file_data.content[offset as usize..end].copy_from_slice(&data);\n                file_data.mtime = time;",
   "                let offset = 0u64;\n                let end = offset as usize + data.len();\n                if end > file_data.content.len() {\n                    file_data.content.resize(end, 0);\n                }\n                file_data.content[offset as usize..end].copy_from_slice(&data);\n                file_data.mtime = time;"),
